@@ -331,3 +331,81 @@ Section Refute.
     cbn [finish_step ts_stk ts_init]. cbn. discriminate.
   Qed.
 End Refute.
+
+(* ---------------------------------------------------------------- the statements of Props/C04.v *)
+
+Definition A1 (fmt_float : N -> bytes) (parse_float : bytes -> option N) : Prop :=
+  forall f, f64_finite f = true -> parse_float (fmt_float f) = Some f.
+Definition A2 (fmt_float : N -> bytes) : Prop :=
+  forall f, f64_finite f = true -> float_text_ok f (fmt_float f) = true.
+Definition A2R (fmt_float : N -> bytes) : Prop :=
+  forall f, f64_finite f = true -> float_text_frac (fmt_float f) = true.
+Definition CID (cid_str : bytes -> bytes) (cid_parse : bytes -> option bytes) (cid_ok : bytes -> bool) : Prop :=
+  (forall c, cid_ok c = true -> cid_parse (cid_str c) = Some c) /\
+  (forall c, cid_ok c = true -> utf8_valid (cid_str c) = true).
+
+Definition nonintegral (f : N) : bool := negb (f64_integral_small f).
+Definition any_float (f : N) : bool := true.
+
+(* decode (encode v) = Ok (sort v), with the same kinds, for every value [good] admits *)
+Definition roundtrip_for fmt_float parse_float cid_str cid_parse cid_ok (good : N -> bool) : Prop :=
+  forall v, json_safe cid_ok good v = true -> jdepth v <= 1024 ->
+    exists bs, jenc fmt_float cid_str dagjson_eopts cid_ok v = Ok bs /\
+               jdecode parse_float cid_parse dagjson_dopts bs = Ok (sort_maps bytes_ltb v, []).
+
+
+Lemma partial_lemma :
+  forall fmt_float parse_float cid_str cid_parse cid_ok,
+    A1 fmt_float parse_float -> A2 fmt_float -> CID cid_str cid_parse cid_ok ->
+    roundtrip_for fmt_float parse_float cid_str cid_parse cid_ok nonintegral.
+Proof.
+  intros fmt_float parse_float cid_str cid_parse cid_ok H1 H2 [H3 H4] v.
+  apply (roundtrip fmt_float parse_float cid_str cid_parse cid_ok H1 nonintegral); try assumption.
+  intros f Hf Hg. specialize (H2 f Hf). unfold float_text_ok in H2. unfold nonintegral in Hg.
+  apply negb_true_iff in Hg. now rewrite Hg in H2.
+Qed.
+
+Lemma refuted_lemma :
+  forall fmt_float parse_float cid_str cid_parse cid_ok,
+    A2 fmt_float -> ~ roundtrip_for fmt_float parse_float cid_str cid_parse cid_ok any_float.
+Proof.
+  intros fmt_float parse_float cid_str cid_parse cid_ok H2 RT.
+  destruct (RT (DFloat 4607182418800017408) eq_refl ltac:(discriminate)) as (bs & E & D).
+  destruct (refuted_float fmt_float parse_float cid_str cid_parse cid_ok 4607182418800017408 eq_refl eq_refl
+              (H2 4607182418800017408 eq_refl)) as [E' ND].
+  rewrite E' in E. inversion E; subst. exact (ND [] D).
+Qed.
+
+Lemma repaired_lemma :
+  forall fmt_float parse_float cid_str cid_parse cid_ok,
+    A1 fmt_float parse_float -> A2R fmt_float -> CID cid_str cid_parse cid_ok ->
+    roundtrip_for fmt_float parse_float cid_str cid_parse cid_ok any_float.
+Proof.
+  intros fmt_float parse_float cid_str cid_parse cid_ok H1 H2 [H3 H4] v.
+  apply (roundtrip fmt_float parse_float cid_str cid_parse cid_ok H1 any_float); try assumption.
+  intros f Hf _. now apply H2.
+Qed.
+
+Lemma sorted_keys_lemma :
+  forall fmt_float cid_str cid_ok v bs,
+    uniq v = true -> jenc fmt_float cid_str dagjson_eopts cid_ok v = Ok bs ->
+    bs = text fmt_float cid_str (sort_maps bytes_ltb v) /\ maps_sorted (sort_maps bytes_ltb v).
+Proof.
+  intros fmt_float cid_str cid_ok v bs U E.
+  exact (conj (proj2 (enc_ok_inv fmt_float cid_str cid_ok v bs E)) (sorted_output v U)).
+Qed.
+
+(* the hypotheses on values are satisfiable *)
+Example safe_example :
+  json_safe (fun c => negb (is_nil c)) nonintegral
+    (DMap [([47], DMap [([98; 121; 116; 101; 115], DInt 1)]); ([107], DList [DBytes [1; 2; 255]; DLink [1; 85; 0; 0]; DFloat 4609434218613702656; DString [226; 128; 168]])]) = true.
+Proof. vm_compute. reflexivity. Qed.
+
+Example pm_example :
+  pm (DMap [([98], DInt 1); ([97], DNull)]) (DMap [([97], DNull); ([98], DInt 1)]) /\
+  uniq (DMap [([98], DInt 1); ([97], DNull)]) = true.
+Proof.
+  split; [|reflexivity]. apply (pm_map _ [([97], DNull); ([98], DInt 1)]).
+  - apply perm_swap.
+  - repeat constructor.
+Qed.
